@@ -9,6 +9,9 @@
 // every cell holds the minimum weight of a walk whose interior vertices are below its stage (m + 1 for the cells
 // before (jj, kk), m for the others).  At m == order that is C08's statement.
 //
+// `DistanceMatrix::new` is not assumed: its extracted body is imported (units/inc/dm_new.inc.rs, owned by units/dm_new.rs)
+// and verified here against the contract `FloydWarshall::new` relies on; assumed below it: prelude/dm_new_std.rs.
+//
 // Rule M: Verus has no `continue` in for-loops.  `if c { continue; } rest` is rewritten to `if !c { rest }` by five
 // @manual text replacements (the skipped text is put in a block comment, two closing braces are added after the
 // innermost statement, which is followed by closing braces only).
@@ -22,6 +25,8 @@ global size_of usize == 8;
 //@include prelude/dgw_isize.rs
 //@include speclib/graph.rs
 //@import units/inc/distance_matrix.inc.rs
+//@include prelude/dm_new_std.rs
+//@import units/inc/dm_new.inc.rs
 //@include prelude/fw_std.rs
 //@include speclib/fw_lemmas.rs
 
